@@ -34,7 +34,7 @@ Definition w_credit_fails_writer_waits : list label :=
   ++ [ESend Sv (KOwn false 1); IRead Sv; ITake Sv false; ILock Sv; ISend Sv; IUnlock Sv false; IWTake Sv]
   ++ [EWriteFail Cl; IDWrite Cl true; IHandshake Cl; IStop Cl; ISelDone Sv].
 
-Definition cfg_destmu_leak : cfg := mkCfg true true true true false.
+Definition cfg_destmu_leak : cfg := mkCfg true true true true false true.
 
 Definition lock_leaked_writer_stuck (s : state) : bool :=
   dleak_c s && match rd (ds s), wr (ds s) with RDoneSend, WPend => true | _, _ => false end
@@ -67,7 +67,7 @@ Definition w_blocked_write_fails_late : list label :=
   ++ [EHalf Sv; IReadEnd Sv; ITake Sv false; IHandshake Sv; IStop Sv; ISelDone Cl]
   ++ [EClose Sv; IWSend Cl true].
 
-Definition cfg_unbuffered_werr : cfg := mkCfg true true true false true.
+Definition cfg_unbuffered_werr : cfg := mkCfg true true true false true true.
 
 Definition handoff_deadlock (s : state) : bool :=
   match rd (dc s), wr (dc s) with RDoneSend, WErrSend => true | _, _ => false end
@@ -84,7 +84,7 @@ Definition not_returned (s : state) : bool := negb (returned s).
 Lemma refute_returns_orig : bad_final cfg_orig w_client_close not_returned = true.
 Proof. vm_compute. reflexivity. Qed.
 
-Lemma refute_returns_no_done : bad_final (mkCfg true false true true true) w_client_close not_returned = true.
+Lemma refute_returns_no_done : bad_final (mkCfg true false true true true true) w_client_close not_returned = true.
 Proof. vm_compute. reflexivity. Qed.
 
 Lemma refute_upstream_orig :
@@ -92,7 +92,7 @@ Lemma refute_upstream_orig :
 Proof. vm_compute. reflexivity. Qed.
 
 Lemma refute_upstream_no_close :
-  bad_final (mkCfg false true true true true) w_closing (fun s => returned s && negb (sc_closed s)) = true.
+  bad_final (mkCfg false true true true true true) w_closing (fun s => returned s && negb (sc_closed s)) = true.
 Proof. vm_compute. reflexivity. Qed.
 
 Lemma refute_goroutine_orig :
@@ -107,7 +107,7 @@ Lemma refute_emit_orig : bad_final cfg_orig w_full_both_closed stuck_in_emit = t
 Proof. vm_compute. reflexivity. Qed.
 
 (* with the done signal but a bare `output <- f`, the same run still wedges *)
-Lemma refute_emit_no_abort : bad_final (mkCfg true true false true true) w_full_both_closed stuck_in_emit = true.
+Lemma refute_emit_no_abort : bad_final (mkCfg true true false true true true) w_full_both_closed stuck_in_emit = true.
 Proof. vm_compute. reflexivity. Qed.
 
 (* sendWindowUpdates leaves destMu locked on its error path: the opposite writer waits for it for ever;
@@ -120,6 +120,34 @@ Lemma fixed_escapes_credit_failure :
   match run cfg_fixed init (w_credit_fails_writer_waits ++ [IWSend Sv true; IHandshake Sv; IStop Sv; IJoin; ICallerClose; IReadEnd Sv]) with
   | Some s => quiescentb cfg_fixed s && negb (blocks s Cl) && negb (blocks s Sv) && c10_ok (obs_of s)
   | None => false
+  end = true.
+Proof. vm_compute. reflexivity. Qed.
+
+(* the DATA case of processFrame loses its errors: a failed credit write / a DATA frame the stream
+   processor rejects no longer ends the session *)
+Definition cfg_swallow : cfg := mkCfg true true true true true false.
+
+Definition w_credit_write_fails : list label :=
+  w_idle ++ [EWriteFail Cl; ESend Cl (KOwn true 0); IRead Cl; ITake Cl false; IDWrite Cl true].
+
+Definition w_processor_rejects_data : list label :=
+  w_idle ++ [ESend Cl KDataBad; IRead Cl; ITake Cl false].
+
+Definition still_relaying (s : state) : bool :=
+  match rd (dc s), rd (ds s) with RSel, RSel => true | _, _ => false end
+  && negb (returned s) && negb (blocks s Cl) && negb (blocks s Sv).
+
+Lemma refute_swallowed_write_error : bad_final cfg_swallow w_credit_write_fails still_relaying = true.
+Proof. vm_compute. reflexivity. Qed.
+
+Lemma refute_swallowed_processor_error : bad_final cfg_swallow w_processor_rejects_data still_relaying = true.
+Proof. vm_compute. reflexivity. Qed.
+
+Lemma fixed_ends_on_data_errors :
+  match run cfg_fixed init (w_credit_write_fails ++ [IHandshake Cl; IStop Cl; ISelDone Sv; IHandshake Sv; IStop Sv; IJoin; ICallerClose; IReadEnd Sv]),
+        run cfg_fixed init (w_processor_rejects_data ++ [IHandshake Cl; IStop Cl; ISelDone Sv; IHandshake Sv; IStop Sv; IJoin; ICallerClose; IReadEnd Sv]) with
+  | Some s1, Some s2 => quiescentb cfg_fixed s1 && c10_ok (obs_of s1) && quiescentb cfg_fixed s2 && c10_ok (obs_of s2)
+  | _, _ => false
   end = true.
 Proof. vm_compute. reflexivity. Qed.
 
@@ -179,7 +207,7 @@ Qed.
 Definition ending_label (l : label) : bool :=
   match l with
   | EClose _ | EHalf _ | EClosing => true
-  | ESend _ KBad => true
+  | ESend _ KBad | ESend _ KDataBad => true
   | IPreface false => true
   | IDWrite _ true | IWSend _ true => true
   | _ => false
